@@ -183,7 +183,7 @@ def run(ctx):
     for i, c in enumerate(corpus):
         one_case(ctx, rctx, sandbox, f"corpus{i}", None, c["text"], tuple(c.get("dd", ())), keys, requests, cases)
 
-    n_prog = ctx.n(350, 6000)
+    n_prog = ctx.n(900, 8000)
     for i in range(n_prog):
         r = random.Random(f"{ctx.seed}/c03/{i}")
         g = front.Gen(r, p_bad=0.04, dup_names=False, max_decls=r.choice([1, 2, 4, 7]))
